@@ -231,7 +231,11 @@ func (p *Proc) declVar(ec *ectx, name *ast.Ident, v Val) {
 }
 
 func (p *Proc) storeBoxed(ec *ectx, obj *types.Var, addr *Term, v Val) {
-	t := obj.Type()
+	p.storeCell(ec, obj.Type(), addr, v)
+}
+
+// storeCell writes a value of type t into the heap cell at addr.
+func (p *Proc) storeCell(ec *ectx, t types.Type, addr *Term, v Val) {
 	val := p.convert(ec, v, t)
 	if stt, ok := t.Underlying().(*types.Struct); ok && !opaqueStruct(t) {
 		s := p.ctx.sortOf(t)
